@@ -1,5 +1,9 @@
 import Cvss.Model.Obj
 import Cvss.Model.WF
+import Cvss.Gen.K20
+import Cvss.Gen.K30
+import Cvss.Gen.K31
+import Cvss.Gen.K40
 import Cvss.Spec.Rating
 import Cvss.Spec.Effective
 import Cvss.Spec.Errors
@@ -49,6 +53,25 @@ def modelScores (ver : String) (l : List Nat) : List Nat :=
   | "30" => let c := o30 l; [c.baseScore, c.temporalScore, c.environmentalScore, c.impact, c.exploitability]
   | "31" => let c := o31 l; [c.baseScore, c.temporalScore, c.environmentalScore, c.impact, c.exploitability]
   | _ => [(o40 l).score]
+
+/-- the regenerated no-panic twins (`Gen/K*.lean`): do ALL the score functions the harness calls for an `F`/`H` operation return
+    normally on this byte state? The twins follow Go's own evaluation order, so this is comparable on every byte state, well
+    formed or not. -/
+def modelScoresOk (ver : String) (l : List Nat) : Bool :=
+  match ver with
+  | "20" => let c := o20 l
+    GenK20.BaseScore_ok c.u0 c.u1 c.u2 c.u3 && GenK20.TemporalScore_ok c.u0 c.u1 c.u2 c.u3 &&
+    GenK20.EnvironmentalScore_ok c.u0 c.u1 c.u2 c.u3 && GenK20.Impact_ok c.u0 c.u1 c.u2 c.u3 && GenK20.Exploitability_ok c.u0 c.u1 c.u2 c.u3
+  | "30" => let c := o30 l
+    GenK30.BaseScore_ok c.u0 c.u1 c.u2 c.u3 c.u4 c.u5 && GenK30.TemporalScore_ok c.u0 c.u1 c.u2 c.u3 c.u4 c.u5 &&
+    GenK30.EnvironmentalScore_ok c.u0 c.u1 c.u2 c.u3 c.u4 c.u5 && GenK30.Impact_ok c.u0 c.u1 c.u2 c.u3 c.u4 c.u5 &&
+    GenK30.Exploitability_ok c.u0 c.u1 c.u2 c.u3 c.u4 c.u5
+  | "31" => let c := o31 l
+    GenK31.BaseScore_ok c.u0 c.u1 c.u2 c.u3 c.u4 c.u5 && GenK31.TemporalScore_ok c.u0 c.u1 c.u2 c.u3 c.u4 c.u5 &&
+    GenK31.EnvironmentalScore_ok c.u0 c.u1 c.u2 c.u3 c.u4 c.u5 && GenK31.Impact_ok c.u0 c.u1 c.u2 c.u3 c.u4 c.u5 &&
+    GenK31.Exploitability_ok c.u0 c.u1 c.u2 c.u3 c.u4 c.u5
+  | _ => let c := o40 l
+    GenK40.Score_ok c.u0 c.u1 c.u2 c.u3 c.u4 c.u5 c.u6 c.u7 c.u8
 
 def modelGet (ver : String) (l : List Nat) (a : List Nat) : List Nat :=
   match ver with
@@ -149,7 +172,10 @@ def judgeScore (ver : String) (c : List Nat) (impl : String) : Option String × 
   let m := scoresS ms
   -- on byte states no API call can produce, Go evaluates every weight lookup eagerly and panics even when the result does
   -- not depend on it; the generated model is lazy there. Only non-panicking results are compared on such states.
-  let diff := if m = implScores || (!(modelWf ver c) && impl.startsWith "panic") then none else some m
+  -- The panic behaviour itself IS compared on every state, through the no-panic twins.
+  let okM := modelScoresOk ver c
+  let diff := if okM == impl.startsWith "panic" then some (if okM then "twins: returns normally" else "twins: panics")
+    else if m = implScores || (!(modelWf ver c) && impl.startsWith "panic") then none else some m
   if !(modelWf ver c) then (diff, [], "") else
   if impl.startsWith "panic" then (diff, ["C09", "C11", (if ver == "20" then "C05" else if ver == "40" then "C04" else "C03")], "score panics on a well-formed object") else
   let xs := (f.take n).map parseHexN
